@@ -31,6 +31,46 @@ def Frame {β C : Type} (ops : CarrierOps C) (p : Propagator β C) : Prop :=
   (∀ ctx c, ops.get (p.inject ctx c) tpKey = ops.get c tpKey ∧ ops.get (p.inject ctx c) tsKey = ops.get c tsKey) ∧
   (∀ ctx c, (p.extract ctx c).span = ctx.span)
 
+/-- reference JSON string decoding, one token from the front: a character and the rest (RFC 8259: `\"`, `\\`,
+`\u00XX`, or any byte other than `"` and `\`) -/
+def jsonDecTok : Bytes → Option (UInt8 × Bytes)
+  | [] => none
+  | c :: r =>
+    if c = 0x5c then
+      match r with
+      | e :: r' =>
+        if e = 0x22 ∨ e = 0x5c then some (e, r')
+        else if e = 0x75 then
+          match r' with
+          | a :: b :: x :: y :: r'' =>
+            if a = 0x30 ∧ b = 0x30 then
+              match hexVal x, hexVal y with
+              | some p, some q => some (UInt8.ofNat (p * 16 + q), r'')
+              | _, _ => none
+            else none
+          | _ => none
+        else none
+      | [] => none
+    else if c = 0x22 then none
+    else some (c, r)
+
+/-- decode a whole quoted JSON string (`fuel` ≥ its length) -/
+def jsonDecodeBody : Nat → Bytes → Option Bytes
+  | 0, _ => none
+  | fuel + 1, s =>
+    if s = [0x22] then some []
+    else
+      match jsonDecTok s with
+      | some (c, r) => (jsonDecodeBody fuel r).map (c :: ·)
+      | none => none
+
+def jsonDecode (s : Bytes) : Option Bytes :=
+  match s with
+  | q :: r => if q = 0x22 then jsonDecodeBody (r.length + 1) r else none
+  | [] => none
+
+def printable (s : Bytes) : Bool := s.all (fun c => 0x20 ≤ c.toNat && c.toNat ≤ 0x7e)
+
 namespace W3C
 
 /-- the EXACT set of traceparent headers `Extract` accepts: the shape every conforming parser may accept
